@@ -20,7 +20,8 @@ THEOREMS = {
     "C03_scale_characterised_ex": "example",
     "C03_svs_normal_preserved": "full",
     "C03_svs_normal_preserved_ex": "example",
-    "C03_scale_one_partial": "partial",
+    "C03_scale_one": "full",
+    "C03_scale_one_stable": "full",
     "C03_scale_unit_exact": "full",
     "C03_scale_one_identity": "full",
     "C03_scale_one_ex": "example",
@@ -35,7 +36,7 @@ TRUSTED = [
     "scaled_value_string.py; tied by suite 'scale' (structural comparison, number types included)",
     "Base/Num.v nmul: Python int/Fraction/float multiplication (float(Fraction) and float*float each one correctly "
     "rounded binary64 operation); validated bit-exactly by the suite on float data and float factors",
-    "float x * 1 == x (float_stable) is validated by correspondence (factor 1 / 1.0 / Fraction(1) cases), not proved",
+    "floats are finite binary64 values in canonical form (wf_float: the invariant of the encoder rgv/coqio.py float_me)",
     "correspondence harness: rgv/props/C03.py + C08.py generators, rgv/ser.py serialiser",
     "scaling commutes with compilation and the Markdown prose part are stated on the compiler / Markdown models",
 ]
